@@ -352,6 +352,7 @@ contract(
     ensures=lambda c: And(c.result[0] == cur_hash(c, c.name), Not(c.result[0].contains(".dir")), c.result[0].length() > 0, _exists_if_local(c)),
     # digests are hex strings (no '.dir' inside): part of what HT denotes
     entry_assume=lambda c: And(fs_checksums_sound(c), Not(cur_hash(c, c.name).contains(".dir"))),
+    assumes=['FS-CHECKSUM: a checksum that fs.info() reports under key F for the file as it is now is the digest of its current bytes under algorithm F', "digests are hex strings: they do not contain '.dir'"],
     bounded=("bounded/hash_file_fs.py", 60, 900),
     props=["C14", "C13"],
     doc="the digest of the file's current bytes under `name`, whichever of the three sources supplies it (checksum in fs.info under "
